@@ -156,6 +156,134 @@ theorem separated_sound (A B : EO.Polygon) (h : EO.separated A B = true) (p : QP
   · exact sepY_sound A B h p
   · intro ⟨x, y⟩; exact sepY_sound B A h p ⟨y, x⟩
 
+/-! ### half-planes: a point that a line separates strictly from all vertices is outside -/
+
+theorem up_edge_key (α β : ℚ) (a b p : QPt) (_h0 : a.y < b.y) (h1 : a.y ≤ p.y) (h2 : p.y < b.y)
+    (ha : α * a.x + β * a.y < α * p.x + β * p.y) (hb : α * b.x + β * b.y < α * p.x + β * p.y) :
+    α * (a.x * (b.y - a.y) + (p.y - a.y) * (b.x - a.x)) < α * (p.x * (b.y - a.y)) := by
+  have hDt : 0 < b.y - p.y := by linarith
+  have ht : 0 ≤ p.y - a.y := by linarith
+  nlinarith [mul_pos hDt (sub_pos.mpr ha), mul_nonneg ht (sub_pos.mpr hb).le]
+
+/-- if the linear form `α·x + β·y` is strictly smaller at every vertex of `P` than at `p`, then `p` is outside `P` -/
+theorem halfplane_not_inside (P : QPolygon) (α β : ℚ) (p : QPt)
+    (h : ∀ e ∈ EO.allEdges P, α * e.1.x + β * e.1.y < α * p.x + β * p.y ∧
+      α * e.2.x + β * e.2.y < α * p.x + β * p.y) : ¬ inside P p := by
+  rcases lt_trichotomy α 0 with hα | hα | hα
+  · -- the half-plane opens to the left: every straddling edge is crossed; their number is even
+    unfold inside crossCount
+    have : (EO.allEdges P).countP (fun e => decide (crosses e.1 e.2 p)) =
+        (EO.allEdges P).countP (fun e => decide (e.1.y ≤ p.y) != decide (e.2.y ≤ p.y)) := by
+      apply List.countP_congr
+      intro e he
+      obtain ⟨ha, hb⟩ := h e he
+      rw [decide_eq_true_eq, ← straddle_iff]
+      constructor
+      · intro hc; exact ⟨hc.1, hc.2.1, hc.2.2.1⟩
+      · rintro ⟨hne, hlo, hhi⟩
+        rcases lt_or_gt_of_ne hne with h0 | h0
+        · rw [min_eq_left h0.le] at hlo
+          rw [max_eq_right h0.le] at hhi
+          rw [crosses_iff]; left
+          refine ⟨h0, hlo, hhi, ?_⟩
+          have key := up_edge_key α β e.1 e.2 p h0 hlo hhi ha hb
+          have := (mul_lt_mul_left_of_neg hα).mp key
+          linarith
+        · rw [min_eq_right h0.le] at hlo
+          rw [max_eq_left h0.le] at hhi
+          rw [crosses_symm, crosses_iff]; left
+          refine ⟨h0, hlo, hhi, ?_⟩
+          have key := up_edge_key α β e.2 e.1 p h0 hlo hhi hb ha
+          have := (mul_lt_mul_left_of_neg hα).mp key
+          linarith
+    rw [this]
+    have h2 : (EO.allEdges P).countP (fun e => decide (e.1.y ≤ p.y) != decide (e.2.y ≤ p.y)) % 2 = 0 :=
+      allEdges_parity (fun v : QPt => decide (v.y ≤ p.y)) P
+    omega
+  · -- horizontal line: no edge straddles the ordinate of p
+    subst hα
+    apply not_inside_of_no_cross
+    intro e he hc
+    obtain ⟨ha, hb⟩ := h e he
+    simp only [zero_mul, zero_add] at ha hb
+    obtain ⟨hlo, hhi⟩ := crosses_y_range _ _ _ hc
+    rcases lt_trichotomy β 0 with hβ | hβ | hβ
+    · have h1 : p.y < e.1.y := by nlinarith
+      have h2 : p.y < e.2.y := by nlinarith
+      have : p.y < min e.1.y e.2.y := lt_min h1 h2
+      linarith
+    · subst hβ; simp at ha
+    · have h1 : e.1.y < p.y := by nlinarith
+      have h2 : e.2.y < p.y := by nlinarith
+      have : max e.1.y e.2.y < p.y := max_lt h1 h2
+      linarith
+  · -- the half-plane opens to the right: the ray never meets an edge
+    apply not_inside_of_no_cross
+    intro e he hc
+    obtain ⟨ha, hb⟩ := h e he
+    have hs := (crosses_symm e.1 e.2 p).mp hc
+    rw [crosses_iff] at hc hs
+    rcases hc with ⟨h0, h1, h2, h3⟩ | ⟨h0, _, _, _⟩
+    · have key := up_edge_key α β e.1 e.2 p h0 h1 h2 ha hb
+      have := (mul_lt_mul_iff_right₀ hα).mp key
+      linarith
+    · rcases hs with ⟨_, h1, h2, h3⟩ | ⟨h0', _, _, _⟩
+      · have key := up_edge_key α β e.2 e.1 p h0 h1 h2 hb ha
+        have := (mul_lt_mul_iff_right₀ hα).mp key
+        linarith
+      · exact absurd h0 (not_lt.mpr h0'.le)
+
+/-- `orient u v w` as a linear form in `w` (over ℚ) -/
+theorem orient_cast (u v w : EO.Pt) :
+    ((EO.orient u v w : Int) : ℚ) =
+      (-((v.y : ℚ) - u.y)) * w.x + ((v.x : ℚ) - u.x) * w.y - ((-((v.y : ℚ) - u.y)) * u.x + ((v.x : ℚ) - u.x) * u.y) := by
+  unfold EO.orient; push_cast; ring
+
+theorem sideOK_sound (u v : EO.Pt) (A B : EO.Polygon)
+    (h : EO.sideOK u v (EO.allEdges A) (EO.allEdges B) = true) (p : QPt) :
+    ¬ (inside (polyQ A) p ∧ inside (polyQ B) p) := by
+  unfold EO.sideOK at h
+  rw [Bool.and_eq_true, List.all_eq_true, List.all_eq_true] at h
+  obtain ⟨hA, hB⟩ := h
+  rintro ⟨iA, iB⟩
+  set α : ℚ := -((v.y : ℚ) - u.y) with hα
+  set β : ℚ := (v.x : ℚ) - u.x with hβ
+  set c : ℚ := α * u.x + β * u.y with hc
+  rcases lt_or_ge c (α * p.x + β * p.y) with hp | hp
+  · -- p strictly on the left: outside A
+    refine halfplane_not_inside (polyQ A) α β p ?_ iA
+    intro e he
+    obtain ⟨a, b, hab, rfl⟩ := mem_allEdges_polyQ A e he
+    have := hA (a, b) hab
+    simp only [decide_eq_true_eq] at this
+    have h1 : ((EO.orient u v a : Int) : ℚ) ≤ 0 := by exact_mod_cast this.1
+    have h2 : ((EO.orient u v b : Int) : ℚ) ≤ 0 := by exact_mod_cast this.2
+    rw [orient_cast] at h1 h2
+    simp only [toQ]
+    constructor <;> linarith
+  · -- p on the closed right side: outside B
+    refine halfplane_not_inside (polyQ B) (-α) (-β) p ?_ iB
+    intro e he
+    obtain ⟨a, b, hab, rfl⟩ := mem_allEdges_polyQ B e he
+    have := hB (a, b) hab
+    simp only [decide_eq_true_eq] at this
+    have h1 : (0 : ℚ) < ((EO.orient u v a : Int) : ℚ) := by exact_mod_cast this.1
+    have h2 : (0 : ℚ) < ((EO.orient u v b : Int) : ℚ) := by exact_mod_cast this.2
+    rw [orient_cast] at h1 h2
+    simp only [toQ]
+    constructor <;> linarith
+
+/-- operands separated by the line through one of their edges have disjoint regions -/
+theorem sepLine_sound (A B : EO.Polygon) (h : EO.sepLine A B = true) (p : QPt) :
+    ¬ (inside (polyQ A) p ∧ inside (polyQ B) p) := by
+  unfold EO.sepLine at h
+  simp only [List.any_eq_true, Bool.or_eq_true] at h
+  obtain ⟨e, _, ((h | h) | h) | h⟩ := h
+  · exact sideOK_sound e.1 e.2 A B h p
+  · exact sideOK_sound e.2 e.1 A B h p
+  · intro ⟨x, y⟩; exact sideOK_sound e.1 e.2 B A h p ⟨y, x⟩
+  · intro ⟨x, y⟩; exact sideOK_sound e.2 e.1 B A h p ⟨y, x⟩
+
 /-! ### the covering rectangle -/
 
 theorem inside_rect (x0 y0 x1 y1 : ℚ) (p : QPt) (hx0 : x0 < p.x) (hx1 : p.x < x1) (hy0 : y0 ≤ p.y) (hy1 : p.y < y1) :
@@ -234,10 +362,11 @@ theorem emptyCert_sound (op : EO.Op) (A B : EO.Polygon) (h : EO.emptyCert op A B
   · -- inter
     simp only [EO.emptyCert, Bool.or_eq_true] at h
     simp only [holds]
-    rcases h with (h | h) | h
+    rcases h with ((h | h) | h) | h
     · intro ⟨hA, _⟩; exact noEdges_not_inside A h p hA
     · intro ⟨_, hB⟩; exact noEdges_not_inside B h p hB
     · exact separated_sound A B h p
+    · exact sepLine_sound A B h p
   · -- sub
     simp only [EO.emptyCert, Bool.or_eq_true, decide_eq_true_eq] at h
     simp only [holds]
